@@ -1,28 +1,67 @@
 import StoneVerif.Lemmas.DeclPySecDefaults
 namespace StoneVerif.DeclPy
 
-theorem attrRefs_plain : ∀ (l : List (Name × AttrKind)), (l.all fun x => x.2 == AttrKind.plain) = true → attrRefs l = []
-  | [], _ => rfl
-  | (k, .plain) :: r, h => by
+/-- a printed tag reference `[ns.]Class.tag` (field defaults, union-tag route attributes) is ready -/
+theorem tagRef_ready {api : Api} (hapi : apiWF api = true) {ns : Namespace} (hns : ns ∈ api.namespaces) {st : St}
+    (hctx : Ctx api st ns) (hcls : ∀ d ∈ ns.types, ClassOK api st ns d)
+    (hals : ∀ a ∈ ns.aliases, AliasOK api st ns a) {t : Ty} {tag : Name}
+    (htag : tagOKTy api (api.nAliases + 1) t tag = true) (htok : tyOK api ns t = true)
+    (hends : aliasEndsInUser api (api.nAliases + 1) t = true) :
+    ∀ r ∈ tagRef ns.name t tag, Ready st (modName ns) r := by
+  have key : ∀ ns' n', (t = .user ns' n' ∨ t = .alias ns' n') →
+      Ready st (modName ns) (qual ns.name ns' (fmtClass n') (some (fmtVar tag))) := by
+    intro ns' n' ht
+    obtain ⟨c, hres, htags⟩ := alias_target hapi hns hctx hcls ns.aliases (fun a ha => ha) hals htok
+      (local_aliases_exist hapi hns htok) (Nat.le_refl _) hends ht (some (fmtVar tag))
+    exact ⟨.cls c, hres, fun a ha => by
+      rw [qual_attr] at ha; injection ha with ha; subst ha
+      exact ⟨c, rfl, htags _ tag htag⟩⟩
+  intro r hr
+  cases t with
+  | user ns' n' => simp only [tagRef, List.mem_singleton] at hr; subst hr; exact key ns' n' (Or.inl rfl)
+  | alias ns' n' => simp only [tagRef, List.mem_singleton] at hr; subst hr; exact key ns' n' (Or.inr rfl)
+  | prim => simp [tagRef] at hr
+  | void => simp [tagRef] at hr
+  | list t => simp [tagRef] at hr
+  | map k v => simp [tagRef] at hr
+  | nullable t => simp [tagRef] at hr
+
+/-- the names a route's attribute dictionary evaluates are ready -/
+theorem attrRefs_ready {api : Api} (hapi : apiWF api = true) {ns : Namespace} (hns : ns ∈ api.namespaces) {st : St}
+    (hctx : Ctx api st ns) (hcls : ∀ d ∈ ns.types, ClassOK api st ns d)
+    (hals : ∀ a ∈ ns.aliases, AliasOK api st ns a) :
+    ∀ (l : List (Name × AttrKind)), (l.all (fun (x : Name × AttrKind) => match x.2 with
+        | .tagRef t tag => tagOKTy api (api.nAliases + 1) t tag && tyOK api ns t
+            && aliasEndsInUser api (api.nAliases + 1) t
+        | _ => true)) = true → ∀ r ∈ attrRefs ns.name l, Ready st (modName ns) r
+  | [], _, r, hr => by simp [attrRefs] at hr
+  | (k, .plain) :: rest, h, r, hr => by
     simp only [List.all_cons, Bool.and_eq_true] at h
-    simp only [attrRefs]; exact attrRefs_plain r h.2
-  | (k, .tagRef) :: r, h => by simp at h
-  | (k, .timestamp) :: r, h => by simp at h
+    simp only [attrRefs] at hr
+    exact attrRefs_ready hapi hns hctx hcls hals rest h.2 r hr
+  | (k, .timestamp) :: rest, h, r, hr => by
+    simp only [List.all_cons, Bool.and_eq_true] at h
+    simp only [attrRefs] at hr
+    exact attrRefs_ready hapi hns hctx hcls hals rest h.2 r hr
+  | (k, .tagRef t tag) :: rest, h, r, hr => by
+    simp only [List.all_cons, Bool.and_eq_true] at h
+    simp only [attrRefs, List.mem_append] at hr
+    rcases hr with hr | hr
+    · exact tagRef_ready hapi hns hctx hcls hals h.1.1.1 h.1.1.2 h.1.2 r hr
+    · exact attrRefs_ready hapi hns hctx hcls hals rest h.2 r hr
 
 theorem routeWF_at {api : Api} (hapi : apiWF api = true) {ns : Namespace} (hns : ns ∈ api.namespaces)
     {r : Route} (hr : r ∈ ns.routes) :
-    tyOK api ns r.arg = true ∧ tyOK api ns r.result = true ∧ tyOK api ns r.error = true ∧ attrRefs r.attrs = [] := by
+    tyOK api ns r.arg = true ∧ tyOK api ns r.result = true ∧ tyOK api ns r.error = true
+      ∧ (r.attrs.all (fun (x : Name × AttrKind) => match x.2 with
+        | .tagRef t tag => tagOKTy api (api.nAliases + 1) t tag && tyOK api ns t
+            && aliasEndsInUser api (api.nAliases + 1) t
+        | _ => true)) = true := by
   have hw := nsWF_of_apiWF hapi hns
   simp only [nsWF, Bool.and_eq_true] at hw
   have := List.all_eq_true.mp hw.1.1.1.2 r hr
   simp only [routeWF, Bool.and_eq_true] at this
-  refine ⟨this.1.1.1, this.1.1.2, this.1.2, attrRefs_plain _ ?_⟩
-  have h2 := this.2
-  simp only [List.all_eq_true] at h2 ⊢
-  intro x hx
-  have := h2 x hx
-  obtain ⟨k, v⟩ := x
-  exact this
+  exact ⟨this.1.1.1, this.1.1.2, this.1.2, this.2⟩
 
 /-- route objects and `ROUTES` -/
 theorem sec_routes {api : Api} (hapi : apiWF api = true) {ns : Namespace} (hns : ns ∈ api.namespaces) (st : St)
@@ -33,18 +72,18 @@ theorem sec_routes {api : Api} (hapi : apiWF api = true) {ns : Namespace} (hns :
     ∃ st', Steps st (modName ns) (routeStmts ns.name ns.routes) st' := by
   rw [globals_routeStmts] at hnd hfresh
   have hmap : ns.routes.map (fun r => Stmt.assign (fmtFunc r.name false r.version) none none
-      (tyRefs ns.name r.arg ++ tyRefs ns.name r.result ++ tyRefs ns.name r.error ++ attrRefs r.attrs))
+      (tyRefs ns.name r.arg ++ tyRefs ns.name r.result ++ tyRefs ns.name r.error ++ attrRefs ns.name r.attrs))
       = ns.routes.flatMap (fun r => [Stmt.assign (fmtFunc r.name false r.version) none none
-      (tyRefs ns.name r.arg ++ tyRefs ns.name r.result ++ tyRefs ns.name r.error ++ attrRefs r.attrs)]) := by
+      (tyRefs ns.name r.arg ++ tyRefs ns.name r.result ++ tyRefs ns.name r.error ++ attrRefs ns.name r.attrs)]) := by
     induction ns.routes <;> simp_all [List.flatMap_cons]
   have hglob : (ns.routes.flatMap (fun r => [Stmt.assign (fmtFunc r.name false r.version) none none
-      (tyRefs ns.name r.arg ++ tyRefs ns.name r.result ++ tyRefs ns.name r.error ++ attrRefs r.attrs)])).flatMap
+      (tyRefs ns.name r.arg ++ tyRefs ns.name r.result ++ tyRefs ns.name r.error ++ attrRefs ns.name r.attrs)])).flatMap
         Stmt.globals = ns.routes.map (fun r => fmtFunc r.name false r.version) := by
     induction ns.routes <;> simp_all [List.flatMap_cons]
   have hnd' := (List.nodup_append.mp hnd)
   obtain ⟨st1, hs1, hq1⟩ := steps_flatMap' (α := Route)
     (fun r => [Stmt.assign (fmtFunc r.name false r.version) none none
-      (tyRefs ns.name r.arg ++ tyRefs ns.name r.result ++ tyRefs ns.name r.error ++ attrRefs r.attrs)])
+      (tyRefs ns.name r.arg ++ tyRefs ns.name r.result ++ tyRefs ns.name r.error ++ attrRefs ns.name r.attrs)])
     (modName ns)
     (fun st => Ctx api st ns ∧ (∀ d ∈ ns.types, ClassOK api st ns d) ∧ (∀ a ∈ ns.aliases, AliasOK api st ns a))
     (fun r st => (st.global? (modName ns) (fmtFunc r.name false r.version)).isSome = true)
@@ -61,15 +100,15 @@ theorem sec_routes {api : Api} (hapi : apiWF api = true) {ns : Namespace} (hns :
         ready_tyRefs hapi hns hctx hcls ns.aliases hals t ht (local_aliases_exist hapi hns ht)
       obtain ⟨st', v, hs, hg, _⟩ := steps_assign_glob (cur := modName ns) (t := fmtFunc r.name false r.version)
         (cp := none)
-        (uses := tyRefs ns.name r.arg ++ tyRefs ns.name r.result ++ tyRefs ns.name r.error ++ attrRefs r.attrs) hwf
+        (uses := tyRefs ns.name r.arg ++ tyRefs ns.name r.result ++ tyRefs ns.name r.error ++ attrRefs ns.name r.attrs) hwf
         (by
           intro x hx
-          rw [h4, List.append_nil] at hx
           simp only [List.mem_append] at hx
-          rcases hx with (hx | hx) | hx
+          rcases hx with ((hx | hx) | hx) | hx
           · exact rdy _ h1 x hx
           · exact rdy _ h2 x hx
-          · exact rdy _ h3 x hx)
+          · exact rdy _ h3 x hx
+          · exact attrRefs_ready hapi hns hctx hcls hals _ h4 x hx)
         (fun x hx => by simp at hx) (hfr _ (by simp)) hctx.started
       exact ⟨st', hs, by simp [hg]⟩)
     (by rw [hglob]; exact hnd'.1) st hwf ⟨hctx, hcls, hals⟩
